@@ -1586,15 +1586,9 @@ impl Machine {
                 Instruction::Delay(dst, src, time) => {
                     let i = self.get_stack(src as i64);
                     let t = self.get_stack(time as i64);
-                    let delaysize_i =
-                        unsafe { self.delaysizes_pos_stack.last().unwrap_unchecked() };
-
-                    let size_in_samples = unsafe {
-                        *self
-                            .get_fnproto(func_i)
-                            .delay_sizes
-                            .get_unchecked(*delaysize_i)
-                    };
+                    // The size of this delay's ring buffer has been loaded into the destination
+                    // register by the MoveConst that bytecodegen emits right before the Delay.
+                    let size_in_samples = self.get_stack(dst as i64);
                     let mut ringbuf = self.get_current_state().get_as_ringbuffer(size_in_samples);
 
                     let res = ringbuf.process(i, t);
